@@ -55,3 +55,33 @@ Lemma zlen_cons {A} (x : A) (l : list A) : zlen (x :: l) = 1 + zlen l.
 Proof. unfold zlen. cbn [length]. lia. Qed.
 Lemma zlen_nil {A} : zlen (@nil A) = 0.
 Proof. reflexivity. Qed.
+
+(* ---- finite function tables: how the correspondence runs instantiate a hash oracle.
+   The harness records the native hash of every list the implementation hashed; the model looks the
+   value up (a missing entry is an error, so "model and implementation hash the same preimages" is
+   checked, not assumed). *)
+Fixpoint list_eqb (a b : list Z) : bool :=
+  match a, b with
+  | [], [] => true
+  | x :: xs, y :: ys => (x =? y) && list_eqb xs ys
+  | _, _ => false
+  end.
+Lemma list_eqb_spec a b : list_eqb a b = true <-> a = b.
+Proof.
+  revert b; induction a as [|x xs IH]; destruct b as [|y ys]; cbn [list_eqb]; split; intro H;
+    try reflexivity; try discriminate.
+  - apply andb_true_iff in H. destruct H as [H1 H2]. apply Z.eqb_eq in H1. apply IH in H2. congruence.
+  - inversion H; subst. apply andb_true_iff. split; [apply Z.eqb_refl|apply IH; reflexivity].
+Qed.
+Definition table := list (list Z * list Z).
+Fixpoint tbl_lookup (t : table) (k : list Z) : option (list Z) :=
+  match t with
+  | [] => None
+  | (k', v) :: r => if list_eqb k' k then Some v else tbl_lookup r k
+  end.
+(* alternating key / value segments *)
+Fixpoint tbl_of_segs (segs : list (list Z)) : table :=
+  match segs with
+  | k :: v :: r => (k, v) :: tbl_of_segs r
+  | _ => []
+  end.
